@@ -484,6 +484,31 @@ class Evaluator:
             raise Unsupported("qualified column")
         return sc.resolve(e.name, e.table or None)
 
+    def x_Identifier(self, e, sc):
+        return sc.resolve(e.name)
+
+    def _extreme(self, e, sc, which):
+        vals = [self.expr(a, sc) for a in [e.this] + list(e.expressions)]
+        res = None
+        for v in vals:
+            if res is None:
+                res = v
+                continue
+            a, b, k = unify(res, v)
+            if k == "null":
+                continue
+            better = is_true(self.cmp("<" if which == "min" else ">", b, a))
+            # DuckDB LEAST/GREATEST skip NULL arguments (NULL only when all are NULL)
+            take = z3.And(z3.Not(b.null), z3.Or(a.null, better))
+            res = ite(take, b, a)
+        return res
+
+    def x_Greatest(self, e, sc):
+        return self._extreme(e, sc, "max")
+
+    def x_Least(self, e, sc):
+        return self._extreme(e, sc, "min")
+
     def x_Literal(self, e, sc):
         if e.is_string:
             return lit(e.this)
@@ -978,6 +1003,70 @@ class Evaluator:
         finally:
             self.macro_depth -= 1
 
+    def _list_items(self, node, sc):
+        """[(member Bool, position Int, SV)] for list(col) in a grouped scope or list(col) OVER (...) in a row scope"""
+        if isinstance(node, exp.ArrayAgg):
+            if sc.members is None:
+                raise Unsupported("list() outside a grouped scope")
+            arg = node.this
+            okeys = []
+            if isinstance(arg, exp.Order):
+                okeys = [(o.this, bool(o.args.get("desc")), o.args.get("nulls_first")) for o in arg.expressions]
+                arg = arg.this
+            rows = self._agg_rows(arg, sc)
+            T = sc.tuples
+            n = len(T)
+            kv = [[self._agg_rows(k, sc)[j][1] for k, _, _ in okeys] for j in range(n)] if okeys else None
+
+            def before(a, b):
+                phys = lex_less(T[a].ord, T[b].ord)
+                if not okeys:
+                    return phys
+                res = phys          # ties of the ORDER BY keys fall back to physical order
+                for kx in reversed(range(len(okeys))):
+                    desc, nf = okeys[kx][1], okeys[kx][2]
+                    x, y, _k = unify(kv[a][kx], kv[b][kx])
+                    if _k == "null":
+                        continue
+                    lt = is_true(self.cmp(">" if desc else "<", x, y))
+                    nlt = z3.And(x.null, z3.Not(y.null)) if nf else z3.And(z3.Not(x.null), y.null)
+                    less = z3.Or(nlt, z3.And(z3.Not(x.null), z3.Not(y.null), lt))
+                    res = z3.Or(less, z3.And(same(x, y), res))
+                return res
+            items = []
+            for j, (m, v) in enumerate(rows):
+                pos = z3.Sum([z3.If(z3.And(rows[a][0], before(a, j)), 1, 0) for a in range(n) if a != j] or [z3.IntVal(0)])
+                items.append((m, pos, v))
+            return items
+        if isinstance(node, exp.Window) and isinstance(node.this, exp.ArrayAgg):
+            return self.x_Window(node, sc, want_list=True)
+        raise Unsupported("list_reduce over %s" % type(node).__name__)
+
+    def f_list_reduce(self, args, sc):
+        items = self._list_items(args[0], sc)
+        lam = args[1]
+        if not isinstance(lam, exp.Lambda) or len(lam.expressions) != 2:
+            raise Unsupported("list_reduce lambda")
+        pa, px = lam.expressions[0].name, lam.expressions[1].name
+        n = len(items)
+        cnt = z3.Sum([z3.If(m, 1, 0) for m, _, _ in items]) if items else z3.IntVal(0)
+
+        def at(t):
+            res = None
+            for m, p, v in items:
+                res = v if res is None else ite(z3.And(m, p == t), v, res)
+            return res
+        if not items:
+            return NULL()
+        acc = at(0)
+        for t in range(1, n):
+            xt = at(t)
+            bind = (None, [pa, px], {pa: acc, px: xt})
+            tp = Tup(sc.tup.present, [bind], sc.tup.ord)
+            new = self.expr(lam.this, Scope(self, tp, z3.And(sc.guard, t < cnt), sc))
+            acc = ite(t < cnt, new, acc)
+        return SV(acc.kind, z3.Or(cnt == 0, acc.null), acc.val, acc.fields)
+
     def f_error(self, args, sc):
         tag = "error"
         a = args[0]
@@ -1204,7 +1293,7 @@ class Evaluator:
         return self._arg_minmax(e, sc, "max")
 
     # ------------------------------------------------------------------ windows
-    def x_Window(self, e, sc):
+    def x_Window(self, e, sc, want_list=False):
         if sc.tuples is None or sc.idx is None:
             raise Unsupported("window outside a row scope")
         if sc.members is not None:
@@ -1293,6 +1382,10 @@ class Evaluator:
                     edge = z3.And(inf, *[z3.Not(z3.And(part[a], frame[a], pos[a] > pos[j])) for a in range(n) if a != j])
                 res = ite(edge, self.expr(fn.this, at[j]), res)
             return res
+        if want_list:
+            # list(col) OVER (...): the frame members in window order (ties by physical order)
+            fpos = [z3.Sum([z3.If(z3.And(part[a], frame[a], strictly(a, j)), 1, 0) for a in range(n) if a != j] or [z3.IntVal(0)]) for j in range(n)]
+            return [(z3.And(part[j], frame[j]), fpos[j], self.expr(fn.this, at[j])) for j in range(n)]
         name = self._aggname(fn)
         if name is None:
             if isinstance(fn, exp.Anonymous) and str(fn.this).upper() == "RATIO_TO_REPORT":
